@@ -214,4 +214,27 @@ PROPS = {
             "rr_count < usize::MAX (machine arithmetic: the record counter cannot overflow in practice)",
         ],
     },
+    "C11": {
+        "level": "other",
+        "units": ["tsig"],
+        "kani": [],
+        "replays": [
+            {"bin": "d9_tsig_badtime_mac", "crate": "replay_tsig", "finding": "D9"},
+        ],
+        "explanation": "contracts on the arithmetic and comparison parts of TSIG (the HMAC is ring: asm/FFI, out of reach): "
+                       "Algorithm::within_len_bounds and Key::calculate_bounds accept exactly the RFC 8945 section 5.2.2.1 lengths "
+                       "max(10, native/2) <= len <= native; Key::compare_signatures is Ok iff the provided MAC is at least "
+                       "min_mac_len long, not longer than the computed one and equal to its prefix, BadTrunc/BadSig otherwise; "
+                       "Key::signature_slice in bounds; Time48::{from_u64, from_slice, into_octets} are the 48-bit big-endian codec "
+                       "and eq_fudged(a,b,f) <=> |a-b| <= f without overflow. One native replay computes the MAC of a BADTIME error "
+                       "response independently (regression guard for D9, a sample, not an obligation).",
+        "not_covered": "MAC values and signed-octet layout (Variables::sign, SigningContext::*: to_be_bytes has no Verus specification and "
+                       "the tsig feature is not built under Kani), end-to-end sign/verify, tamper rejection, TSIG record placement "
+                       "(MessageTsig::from_message), unsigned-message run length in ClientSequence::answer_subsequent (inside a "
+                       "generic function over Message), restoring the pre-signing octets.",
+        "assumptions": [
+            "ring::hmac::{Algorithm, Tag} are prelude models (digest lengths 20/32/48/64); constant_time_eq is slice equality",
+            "core::cmp::max is specified through vstd's OrdSpec",
+        ],
+    },
 }
